@@ -361,9 +361,50 @@ where
             );
         }
     }
+    // constructors from API-built objects (independent of any parser)
+    api_constructors(rep, cx, f, world, &mut judge);
     // constructors from an unchecked (MAX) miniscript
     if let Some(m) = ms_max {
         constructors::<Ctx>(rep, case, cx, f, m, &mut judge);
+    }
+}
+
+fn api_constructors(rep: &mut Report, cx: Cx, f: &Frag, world: &World, judge: &mut dyn FnMut(&mut Report, &str, Result<bool, String>, bool, bool)) {
+    // ... and the same fragment assembled through the API with unchecked key leaves: the
+    // wrapper constructors are then the only gate for key kinds
+    let keyf = |k: &crate::frag::KeyRef| Dk::from_str(&crate::frag::Names::key(world, k)).ok();
+    match cx {
+        Cx::Segwitv0 => {
+            if let Ok(x) = crate::astbuild::build_ext::<Dk, Segwitv0>(f, world, &keyf, true) {
+                let y = x.clone();
+                judge(rep, "Descriptor::new_wsh(api-built)", guarded(std::panic::AssertUnwindSafe(move || Descriptor::new_wsh(x).is_ok())), true, false);
+                judge(rep, "Descriptor::new_sh_wsh(api-built)", guarded(std::panic::AssertUnwindSafe(move || Descriptor::new_sh_wsh(y).is_ok())), true, false);
+            }
+        }
+        Cx::Legacy => {
+            if let Ok(x) = crate::astbuild::build_ext::<Dk, Legacy>(f, world, &keyf, true) {
+                judge(rep, "Descriptor::new_sh(api-built)", guarded(std::panic::AssertUnwindSafe(move || Descriptor::new_sh(x).is_ok())), true, false);
+            }
+        }
+        Cx::Bare => {
+            if let Ok(x) = crate::astbuild::build_ext::<Dk, BareCtx>(f, world, &keyf, true) {
+                judge(rep, "Descriptor::new_bare(api-built)", guarded(std::panic::AssertUnwindSafe(move || Descriptor::new_bare(x).is_ok())), true, false);
+            }
+        }
+        Cx::Tap => {
+            if let Ok(x) = crate::astbuild::build_ext::<Dk, Tap>(f, world, &keyf, true) {
+                judge(
+                    rep,
+                    "Descriptor::new_tr(api-built)",
+                    guarded(std::panic::AssertUnwindSafe(move || {
+                        let ik = Dk::from_str("d98e5446368b02d1d154766588d99a9f20cc4d7be7e66d6b8f7c05588304f93b").unwrap();
+                        Descriptor::new_tr(ik, Some(TapTree::leaf(x))).is_ok()
+                    })),
+                    true,
+                    false,
+                );
+            }
+        }
     }
 }
 
